@@ -58,6 +58,8 @@ def setup_monitors(ctx, mon, anchors):
 
     def on_outliers(frame, ret):
         der = frame.f_locals.get('der')
+        if der is not None:
+            _OBS['der_table'] = np.array(der, copy=True)
         if der is not None and np.any(np.isnan(der)):
             ctx.count('reach:nan_path_of_outlier_trimming')
 
@@ -103,8 +105,16 @@ def draw_point(rng):
     return -v if rng.random() < 0.4 else v
 
 
-def draw_step_spec(rng, method):
+def draw_step_spec(rng, method, n=1):
     u = rng.random()
+    if u < 0.10 and method in ('central', 'forward', 'backward') and n >= 1:
+        # hostile: a long tail of steps below the rounding level h_min ~ eps^(1/n), sized so that 30-48 % of the
+        # steps (hence of the rows of the extrapolation table) give differences that cancel completely
+        r = float(rng.choice([3.0, 4.0]))
+        b = float(rng.choice([0.5, 1.0, 2.0]))
+        k0 = math.log(b / EPS ** (1.0 / n)) / math.log(r)
+        N = int(min(round(k0 / (1.0 - rng.uniform(0.3, 0.48))), 60))
+        return dict(kind='max', opts=dict(base_step=b, step_ratio=r, num_steps=max(N, 8)), hostile='collapsing_tail')
     if u < 0.7:
         return dict(kind='default')
     if u < 0.8:
@@ -169,7 +179,7 @@ def make_case(rng, method, n, order, complex_valued=False):
             if arr and size == 4 and rng.random() < 0.3:
                 shape = [2, 2]
             return dict(tree=tree, x=xs, shape=shape, method=method, n=n, order=order,
-                        step=draw_step_spec(rng, method), cplx=bool(complex_valued))
+                        step=draw_step_spec(rng, method, n), cplx=bool(complex_valued))
     return None
 
 
@@ -245,7 +255,7 @@ class Measure(object):
     """What one element of one case yields."""
     __slots__ = ('in_scope', 'skip', 'exact', 'value', 'err', 'S', 'floor', 'est', 'final_step', 'chat0', 'cn_abs',
                  'rho_valid', 'W', 'nsteps', 'cancel_free', 'noise', 'full_window', 'trunc', 'E', 'P', 'rad',
-                 'chosen_beyond_validity', 'lam', 'chat', 'n')
+                 'chosen_beyond_validity', 'lam', 'chat', 'n', 'frac_collapsed')
 
     def S_at(self, rho):
         return s_of_rho(self.chat, self.n, rho)
@@ -388,6 +398,15 @@ def oracle_for_element(case, res, e, x_e, value_e, est_e, fstep_e):
     m.S = S
     m.in_scope = True
     m.chosen_beyond_validity = bool(fstep_e is not None and np.isfinite(fstep_e) and rad * abs(fstep_e) > rv * 1.0001)
+    # fraction of the rows of the extrapolation table (this element's column) that collapsed towards 0 although the
+    # exact derivative is not small: tiny steps at which all function differences cancel
+    m.frac_collapsed = 0.0
+    tab = obs.get('der_table')
+    if tab is not None and tab.ndim == 2 and tab.shape[1] > e and m.cn_abs > 0:
+        col = np.abs(tab[:, e])
+        col = col[np.isfinite(col)]
+        if col.size:
+            m.frac_collapsed = float(np.mean(col <= 1e-3 * m.cn_abs))
     # honesty floor (C02): rounding a difference quotient at the reported final step cannot avoid
     if fstep_e is not None and np.isfinite(fstep_e) and abs(fstep_e) > 0:
         if cancel_free:
